@@ -90,6 +90,12 @@ def problems(env, cfg, tier):
                   "local_times_non_negative", "positions_are_nodes"):
             out["C01.inv_" + k] = i2[k]
         out.update(K.spec_bounds(env.observation_spec, o, "C01.step_obs_bounds"))
+        # NOT claimed: the upper bound `local_times <= max_local_time = 2 * map_max * sqrt(2) * num_customers`.  It needs
+        # "one hop is at most the map diagonal", i.e. reasoning about sqrt, which Engine J keeps uninterpreted (the inductive
+        # strengthening local_times <= (step_count - 1) * map_max * sqrt(2) comes back `sat` with a model that does not replay
+        # natively).  Only the lower bound is kept.
+        del out["C01.step_obs_bounds.vehicles.local_times"]
+        out["C01.step_obs_bounds.vehicles.local_times_lower_bound"] = o.vehicles.local_times >= 0.0
         return out
 
     step = dict(title=f"MultiCVRP.step@{cfg}", args=(state, a), requires=req, ensures=ens,
